@@ -1144,7 +1144,7 @@ theorem c17_shape_router_Router_handleConn_c17 :
      "r.removeConnection", "verifC10Point", "}", "verifC10Point", "c.Remote",
      "assign:address:=c.Remote()", "for:{", "c.Receive", "assign:packet,err:=c.Receive()",
      "verifC10Point", "r.Lock", "assign:paused:=r.paused", "r.Unlock", "if:(paused!=nil)",
-     "recv:paused", "r.Lock", "assign:r.paused=nil", "r.Unlock", "return:", "if:r.Closed()",
+     "recv:paused", "return:", "if:r.Closed()",
      "return:", "if:(err!=nil)", "if:xerrors.Is(err,ErrTimeout)",
      "r.triggerConnectionErrorHandlers", "return:",
      "if:(xerrors.Is(err,ErrClosed)||xerrors.Is(err,ErrEOF))",
